@@ -59,6 +59,10 @@ def make_plan(seed: int, tier: str) -> dict:
             "poison": st.choice(POISONS) if fault != "pad" else None, "pad": st.randint(1, 3) if fault != "poison" else 0,
             "pad_fill": st.choice(["zero", "poison"]),
             "workload": st.choice(["fit", "fit", "mean_posterior", "mode_posterior", "scipy_minimize"]), "aseed": st.randint(0, 9)}
+    if st.bernoulli(0.08):
+        # the mixture model has no hand-written parameter file in this harness: whole fits only
+        plan["world"]["kind"] = "mixture"
+        plan["workload"] = "fit"
     return plan
 
 
@@ -276,7 +280,7 @@ def run_plan(plan: dict) -> dict:
             with ac.quiet():
                 ya = ma.compute_individual_trajectory(ages, ipd).numpy()
                 yb = mb.compute_individual_trajectory(ages, ipd).numpy()
-            if not (np.array_equal(ya, yb) if exact else np.allclose(ya, yb, rtol=1e-4, atol=1e-6)):
+            if not (np.array_equal(ya, yb, equal_nan=True) if exact else np.allclose(ya, yb, rtol=1e-4, atol=1e-6, equal_nan=True)):
                 violation(out, "twin_history", f"trajectories_at_real_visits_differ:{'poison' if exact else 'padding'}", where)
     else:
         # personalisation of the same cohort by a model loaded from hand-written parameters
